@@ -4,7 +4,9 @@ import JjModel.Drv.Util
   Driver handler for C04.
   `C04 merge <line|word> <keep|accept> <hex>;<hex>;…` (the interleaved terms of the `Merge`) —
   answer `hunks=<R:hex | C:t,t,t|t|…> merge=<t,t,…> try=<none|some:hex>`:
-  the results of `files::merge_hunks`, `files::merge`, `files::try_merge`.
+  the results of `files::merge_hunks`, `files::merge`, `files::try_merge`, followed by ` sre=<0|1>`:
+  the run-time check of the `SlicesRespectEquality` hypothesis of `merge_cancels_to_side_partial`
+  on the model's own line diff (the harness expects `1`).
 -/
 namespace JjModel.Drv.C04
 open JjModel.Files JjModel.Merge JjModel.Drv
@@ -28,7 +30,7 @@ def handle : List String → Option String
       let t := match tryMerge terms level sc with
         | some c => "some:" ++ showHex c
         | none => "none"
-      some s!"hunks={showResult (mergeHunks terms level sc)} merge={m} try={t}"
+      some s!"hunks={showResult (mergeHunks terms level sc)} merge={m} try={t} sre={showBool (lineDiffSre terms)}"
   | _ => none
 
 end JjModel.Drv.C04
